@@ -56,6 +56,9 @@ def parseCOp : List String → Option COp
   | ["dropign"] => some .dropIgn
   | ["adv", d] => d.toNat?.map .adv
   | ["poll"] => some .poll
+  | ["closew"] => some .closeW
+  | ["closewi"] => some .closeWI
+  | ["write"] => some .write
   | _ => none
 
 def showSh : Sh → String
